@@ -127,8 +127,9 @@ func (f *Frame) clone() *Frame {
 type State struct {
 	script    *Script
 	heap      map[string]Term
-	epoch     int // bumped by "havoc everything": untouched keys then start from H<epoch>
-	epochSeq  int // seq at which the current epoch began
+	epoch     int  // bumped by "havoc everything": untouched keys then start from H<epoch>
+	epochSeq  int  // seq at which the current epoch began
+	epochTop  Term // allocation frontier when the current epoch began
 	frames    []*Frame
 	trace     []Event
 	locks     []LockHeld
@@ -139,7 +140,6 @@ type State struct {
 	fresh     map[string]bool // refs allocated on this path (term text)
 	published map[string]bool
 	pathID    string
-	spawned   []spawnRec
 	facts     map[string]bool
 	arrVals   map[string]Value    // "base|idx" -> value stored in a freshly allocated array (static knowledge)
 	seq       int                 // logical time: bumped by allocations and havocs
@@ -261,6 +261,9 @@ type Exec struct {
 	modelled      map[string]bool
 	checkLocks    bool
 	pathsDone     int
+	defBody       map[string]string // define-fun name -> body
+	nameCache     map[*ssa.Function]map[string]ssa.Value
+	keyKind       map[string]LeafKind // heap key -> leaf kind
 }
 
 func (e *Exec) freshName(hint string) string {
@@ -300,6 +303,7 @@ func (e *Exec) define(st *State, hint string, t Term) Term {
 	}
 	name := e.freshName(hint)
 	st.script = st.script.push(fmt.Sprintf("(define-fun %s () %s %s)", name, t.Sort, t.S))
+	e.defBody[name] = t.S
 	return Term{name, t.Sort}
 }
 
@@ -387,6 +391,18 @@ func (e *Exec) curIn(snap *HeapView, key string, leafSort Sort, two bool) Term {
 // rootWF: type invariants of an unknown heap array: slice lengths and offsets
 // stored anywhere are non-negative and bounded by the address space.
 func (e *Exec) rootWF(st *State, key string, t Term, two bool) {
+	if e.keyKind[key] == KRef && !strings.HasPrefix(key, "ghost:") && !strings.HasPrefix(key, "map") {
+		// every reference stored in an unknown heap array is allocated
+		top := st.allocTop
+		if strings.HasPrefix(t.S, "H") && strings.Contains(t.S, "!") && !strings.Contains(t.S, ".") {
+			top = st.epochTop
+		}
+		if two && elemSort(elemSort(t.Sort)) == SInt {
+			st.assert(Term{fmt.Sprintf("(forall ((b Int) (i Int)) (! (and (<= 0 (select (select %s b) i)) (<= (select (select %s b) i) %s)) :pattern ((select (select %s b) i))))", t.S, t.S, top.S, t.S), SBool})
+		} else if !two && elemSort(t.Sort) == SInt {
+			st.assert(Term{fmt.Sprintf("(forall ((r Int)) (! (and (<= 0 (select %s r)) (<= (select %s r) %s)) :pattern ((select %s r))))", t.S, t.S, top.S, t.S), SBool})
+		}
+	}
 	if two || elemSort(t.Sort) != SInt {
 		return
 	}
@@ -415,6 +431,7 @@ func (e *Exec) loadPlace(st *State, p *Place, snap *HeapView) Value {
 	v := Value{T: p.Typ, L: make([]Term, len(leaves))}
 	fseq, isFresh := st.freshSeq[p.Base.S]
 	for i, k := range keys {
+		e.keyKind[k] = leaves[i].Kind
 		var arr Term
 		if snap == nil {
 			arr = e.cur(st, k, leaves[i].Sort, two)
@@ -435,6 +452,12 @@ func (e *Exec) loadPlace(st *State, p *Place, snap *HeapView) Value {
 		} else {
 			t = Select(arr, e.placeIndex(p))
 		}
+		if strings.HasSuffix(k, "#off") {
+			// assumption (listed in evidence): slices held in memory start at
+			// offset 0 of their backing array: they come from literals, append
+			// or decoders, never from re-slicing with a non-zero low bound
+			t = Zero
+		}
 		v.L[i] = t
 	}
 	return v
@@ -449,6 +472,7 @@ func (e *Exec) storePlace(st *State, p *Place, v Value) {
 		panic(fmt.Sprintf("storePlace: %s has %d leaves, value of %v has %d", p, len(leaves), v.T, len(v.L)))
 	}
 	for i, k := range keys {
+		e.keyKind[k] = leaves[i].Kind
 		arr := e.cur(st, k, leaves[i].Sort, two)
 		var n Term
 		if two {
@@ -524,6 +548,28 @@ func (e *Exec) havocAt(st *State, key string, leafSort Sort, two bool, obj Term)
 	return f
 }
 
+// immutableGhost: write-once ghost maps describing objects that never change
+// after creation (contexts, timers, closures, byte/string links). No call can
+// alter them, so they survive "havoc everything".
+var immutableKeys = map[string]bool{}
+
+func immutableGhost(k string) bool {
+	if immutableKeys[k] {
+		return true
+	}
+	for p := range immutableKeys {
+		if strings.HasPrefix(k, p+"#") || strings.HasPrefix(k, p+".") {
+			return true
+		}
+	}
+	switch k {
+	case "ghost:ctxDeadline", "ghost:ctxParent", "ghost:ctxDone", "ghost:cancelCtx", "ghost:fireAt",
+		"ghost:ctx$valT", "ghost:ctx$valV", "ghost:closure$fn", "ghost:bytes$str", "ghost:reqOrigin":
+		return true
+	}
+	return strings.HasPrefix(k, "ghost:closure$b")
+}
+
 // havocAll forgets everything about the heap (unknown call).
 func (e *Exec) havocAll(st *State) {
 	type kv struct {
@@ -541,10 +587,17 @@ func (e *Exec) havocAll(st *State) {
 	st.epoch = e.nextEpoch()
 	st.seq++
 	st.epochSeq = st.seq
+	st.epochTop = st.allocTop
 	for k := range st.heap {
+		if immutableGhost(k) {
+			continue
+		}
 		delete(st.heap, k)
 	}
 	for k := range st.roots {
+		if immutableGhost(k) {
+			continue
+		}
 		delete(st.roots, k)
 	}
 	for _, m := range mono {
